@@ -1361,6 +1361,8 @@ func (e *Engine) modMemoPut(c *FnCtx, fi *FuncInfo, out map[string]types.Type) {
 func (e *Engine) modFunc(c *FnCtx, fi *FuncInfo, out map[string]types.Type, seen map[*types.Func]bool) {
 	callTargs := e.pendingTargs // the instantiation of the call site this walk comes from, if any
 	e.pendingTargs = nil
+	recvTargs := e.pendingRecvTargs // type arguments of the receiver's generic type at that call site
+	e.pendingRecvTargs = nil
 	if fi.Obj != nil {
 		if seen[fi.Obj] {
 			return
@@ -1425,6 +1427,32 @@ func (e *Engine) modFunc(c *FnCtx, fi *FuncInfo, out map[string]types.Type, seen
 					e.modWalk(c, fi.Pkg.TypesInfo, fi.Decl.Body, out, seen)
 				}()
 			}
+			return
+		}
+	}
+	// a method of a generic type called on a receiver whose type arguments are known
+	if rtps := fi.Sig.RecvTypeParams(); rtps != nil && rtps.Len() > 0 && len(recvTargs) == rtps.Len() && (fi.Sig.TypeParams() == nil || fi.Sig.TypeParams().Len() == 0) {
+		resolved := true
+		for _, t := range recvTargs {
+			if hasTypeParam(c.subst(t)) {
+				resolved = false
+			}
+		}
+		if resolved {
+			fr := &inlineFrame{fn: fi, pkg: fi.Pkg, tsubst: map[*types.TypeParam]types.Type{}}
+			for i := 0; i < rtps.Len(); i++ {
+				fr.tsubst[rtps.At(i)] = recvTargs[i]
+			}
+			c.frames = append(c.frames, fr)
+			func() {
+				defer func() {
+					c.frames = c.frames[:len(c.frames)-1]
+					if r := recover(); r != nil {
+						starWhy(out, 18)
+					}
+				}()
+				e.modWalk(c, fi.Pkg.TypesInfo, fi.Decl.Body, out, seen)
+			}()
 			return
 		}
 	}
@@ -1807,6 +1835,22 @@ func (e *Engine) modCall(c *FnCtx, info *types.Info, call *ast.CallExpr, out map
 	}
 	fi := e.ByObj[callee.Origin()]
 	e.pendingTargs = nil
+	e.pendingRecvTargs = nil
+	if se, ok := fun.(*ast.SelectorExpr); ok && fi != nil {
+		if sel, ok := info.Selections[se]; ok && sel.Kind() == types.MethodVal && sel.Recv() != nil {
+			rt := sel.Recv()
+			if p, ok := rt.Underlying().(*types.Pointer); ok {
+				rt = p.Elem()
+			} else if p, ok := types.Unalias(rt).(*types.Pointer); ok {
+				rt = p.Elem()
+			}
+			if nm, ok := types.Unalias(rt).(*types.Named); ok && nm.TypeArgs() != nil {
+				for i := 0; i < nm.TypeArgs().Len(); i++ {
+					e.pendingRecvTargs = append(e.pendingRecvTargs, nm.TypeArgs().At(i))
+				}
+			}
+		}
+	}
 	if fi != nil && instIdent != nil {
 		if inst, ok := info.Instances[instIdent]; ok && inst.TypeArgs != nil {
 			for i := 0; i < inst.TypeArgs.Len(); i++ {
